@@ -30,6 +30,10 @@ def replay(path: str) -> int:
         from .checks_agg import _run_history, validate_histories
         res = _run_history((case["scn"], case["sessions"], str(common.scratch("replay-agg")), "replay"))
         validate_histories(v, [res], prop)
+    elif kind == "uncontrolled-stress":
+        from .checks_agg import stress_uncontrolled
+        root = common.scratch("replay-stress")
+        stress_uncontrolled(v, prop, root, 1)
     elif kind == "object-history":
         from . import checks_objects as co
         from .common import run_tlc, write_ndjson
@@ -37,7 +41,7 @@ def replay(path: str) -> int:
         sdir = common.scratch("replay-obj-t")
         cfg = sdir / "t.cfg"
         cfg.write_text("SPECIFICATION Spec\n" + "".join(f"INVARIANT {i}\n" for i in co.C15_CLAUSES))
-        write_ndjson(sdir / "t.ndjson", [{"ev": [{k: x for k, x in e.items() if k not in ("exception", "tb")} for e in t["ev"]]}])
+        write_ndjson(sdir / "t.ndjson", [{"ev": [{k: x for k, x in e.items() if k not in ("exception", "tb")} for e in t["ev"]], "nominal": t["nominal"]}])
         r = run_tlc("Trace_Objects", str(cfg), env={"TRACE_FILE": str(sdir / "t.ndjson")}, cont=True, workers=2)
         for viol in r.violations:
             v.violation(viol["inv"], d["site"], case, what="replayed history still violates")
@@ -53,7 +57,8 @@ def replay(path: str) -> int:
             if spec == "Trace_Match" and dt is not None:
                 from .rec_pipeline import rec_match
                 fresh = rec_match(_arr(meta["raw_pred"], rec["shape"], dt), _arr(meta["raw_ref"], rec["shape"], dt), rec["matcher"], rec["mm"],
-                                  tuple(rec["thr"]), chain=[tuple(c["thr"]) for c in rec.get("chain", [])], dtype=dt, meta={"gen": meta.get("gen", "")})
+                                  tuple(rec["thr"]), chain=[tuple(c["thr"]) for c in rec.get("chain", [])], dtype=dt, meta={"gen": meta.get("gen", "")},
+                                  layout=meta.get("layout", "C"), history=tuple((h[0], h[1], tuple(h[2])) for h in meta.get("history", [])))
             elif spec == "Trace_Eval" and dt is not None and rec.get("rel", "none") == "none" and not rec.get("glabels") and rec["cfg"]["input"] != "DIRECT":
                 from .rec_pipeline import rec_evaluate
                 fresh = rec_evaluate(_arr(meta["raw_pred"], rec["shape"], dt), _arr(meta["raw_ref"], rec["shape"], dt), rec["cfg"], dtype=dt,
